@@ -435,7 +435,7 @@ def var_signature(fn: ast.AST, name: str) -> str:
     from .model import norm
     a = fn.args
     params = {x.arg for x in a.posonlyargs + a.args + a.kwonlyargs}
-    locs = {n.id for n in ast.walk(fn) if isinstance(n, ast.Name) and isinstance(n.ctx, ast.Store)} - params
+    locs = {n.id for n in ast.walk(fn) if isinstance(n, ast.Name) and isinstance(n.ctx, ast.Store)} | params
 
     def mask(e):
         class M(ast.NodeTransformer):
